@@ -61,6 +61,7 @@ type Enc struct {
 	effectFree  map[string]bool
 	havocCalls  map[string]bool
 	topFr       *frame
+	loopOrd     map[*ssa.BasicBlock]int
 }
 
 func (x *Enc) note(s string) { x.notes[s] = true }
@@ -90,6 +91,7 @@ type frame struct {
 	backEdge map[[2]*ssa.BasicBlock]bool
 	headers  map[*ssa.BasicBlock]int // loop header -> ordinal
 	pure     map[string]bool         // pure param names / interface methods (this function)
+	narrow   Term                    // set by an inlined call: condition under which the call returned
 }
 
 func newEnc(eng *Engine, fn *ssa.Function, con *Contract, prop string) *Enc {
@@ -414,15 +416,19 @@ func (fr *frame) order() []*ssa.BasicBlock {
 		}
 	}
 	// loop ordinals in source order of the header's first instruction position (fallback block index)
-	sort.Slice(hs, func(i, j int) bool {
-		pi, pj := loopPos(hs[i]), loopPos(hs[j])
-		if pi != pj {
-			return pi < pj
-		}
-		return hs[i].Index < hs[j].Index
-	})
+	sort.Slice(hs, func(i, j int) bool { return loopLess(hs[i], hs[j]) })
 	for i, h := range hs {
 		fr.headers[h] = i
+	}
+	// loops of the top function and of the anonymous functions nested in it share one numbering
+	// (source order), so that invariants for loops inside inlined closures can be given in the contract
+	if nestedIn(fn, fr.x.top) {
+		ord := fr.x.globalLoopOrdinals()
+		for _, h := range hs {
+			if k, ok := ord[h]; ok {
+				fr.headers[h] = k
+			}
+		}
 	}
 	var post []*ssa.BasicBlock
 	seen := map[*ssa.BasicBlock]bool{}
@@ -449,6 +455,104 @@ func (fr *frame) order() []*ssa.BasicBlock {
 	return post
 }
 
+func nestedIn(fn, top *ssa.Function) bool {
+	for f := fn; f != nil; f = f.Parent() {
+		if f == top {
+			return true
+		}
+	}
+	return false
+}
+
+func (x *Enc) globalLoopOrdinals() map[*ssa.BasicBlock]int {
+	if x.loopOrd != nil {
+		return x.loopOrd
+	}
+	var hs []*ssa.BasicBlock
+	var walk func(f *ssa.Function)
+	walk = func(f *ssa.Function) {
+		seen := map[*ssa.BasicBlock]bool{}
+		for _, b := range f.Blocks {
+			for _, s := range b.Succs {
+				if s.Dominates(b) && !seen[s] {
+					seen[s] = true
+					hs = append(hs, s)
+				}
+			}
+		}
+		for _, a := range f.AnonFuncs {
+			walk(a)
+		}
+	}
+	walk(x.top)
+	sort.Slice(hs, func(i, j int) bool { return loopLess(hs[i], hs[j]) })
+	x.loopOrd = map[*ssa.BasicBlock]int{}
+	for i, h := range hs {
+		x.loopOrd[h] = i
+	}
+	return x.loopOrd
+}
+
+// naturalLoop: the blocks of the natural loop with header h.
+func naturalLoop(h *ssa.BasicBlock) map[*ssa.BasicBlock]bool {
+	body := map[*ssa.BasicBlock]bool{h: true}
+	var stack []*ssa.BasicBlock
+	for _, p := range h.Preds {
+		if h.Dominates(p) && !body[p] {
+			body[p] = true
+			stack = append(stack, p)
+		}
+	}
+	for len(stack) > 0 {
+		b := stack[len(stack)-1]
+		stack = stack[:len(stack)-1]
+		for _, p := range b.Preds {
+			if !body[p] {
+				body[p] = true
+				stack = append(stack, p)
+			}
+		}
+	}
+	return body
+}
+
+var loopKeyCache = map[*ssa.BasicBlock][2]int{}
+
+// loopLess orders loops in source order: by the smallest source position inside the loop, outer loops
+// (more blocks) before the loops nested in them; loops of different functions by function position.
+func loopLess(a, b *ssa.BasicBlock) bool {
+	ka, kb := loopKey(a), loopKey(b)
+	if ka[0] != kb[0] {
+		return ka[0] < kb[0]
+	}
+	if ka[1] != kb[1] {
+		return ka[1] > kb[1]
+	}
+	return a.Index < b.Index
+}
+
+func loopKey(h *ssa.BasicBlock) [2]int {
+	if k, ok := loopKeyCache[h]; ok {
+		return k
+	}
+	body := naturalLoop(h)
+	best := 0
+	for b := range body {
+		for _, in := range b.Instrs {
+			p := in.Pos()
+			if d, ok := in.(*ssa.DebugRef); ok {
+				p = d.Expr.Pos()
+			}
+			if p.IsValid() && (best == 0 || int(p) < best) {
+				best = int(p)
+			}
+		}
+	}
+	k := [2]int{best, len(body)}
+	loopKeyCache[h] = k
+	return k
+}
+
 func loopPos(h *ssa.BasicBlock) token.Pos {
 	// the smallest valid position among the header's instructions and its back-edge sources
 	best := token.Pos(0)
@@ -457,10 +561,25 @@ func loopPos(h *ssa.BasicBlock) token.Pos {
 			best = p
 		}
 	}
-	for _, in := range h.Instrs {
-		upd(in.Pos())
-		if d, ok := in.(*ssa.DebugRef); ok {
-			upd(d.Expr.Pos())
+	scan := func(b *ssa.BasicBlock) {
+		for _, in := range b.Instrs {
+			upd(in.Pos())
+			if d, ok := in.(*ssa.DebugRef); ok {
+				upd(d.Expr.Pos())
+			}
+		}
+	}
+	scan(h)
+	if best == 0 {
+		// compiler-generated headers (range loops) carry no positions: use the blocks of the loop body,
+		// i.e. the successors of the header that the header dominates and that reach back to it
+		for _, s := range h.Succs {
+			if h.Dominates(s) && s != h {
+				scan(s)
+				if best != 0 {
+					break
+				}
+			}
 		}
 	}
 	return best
@@ -505,10 +624,7 @@ func (fr *frame) get(v ssa.Value) Val {
 	case *ssa.Const:
 		return x.constVal(v)
 	case *ssa.Global:
-		n := sym("glob!" + v.String())
-		x.sc.declConst(n, "Int")
-		x.sc.assert(app(">", n, "0"))
-		return Val{ts: []Term{n}}
+		return Val{ts: []Term{x.globalAddr(v.String())}}
 	case *ssa.Function:
 		n := sym("fn!" + v.String())
 		x.sc.declConst(n, "Int")
@@ -525,6 +641,17 @@ func (fr *frame) get(v ssa.Value) Val {
 	val := x.freshVal("undef_"+v.Name(), v.Type())
 	fr.vals[v] = val
 	return val
+}
+
+// globalAddr: the address of a package-level variable: positive, and allocated before the call.
+func (x *Enc) globalAddr(name string) Term {
+	n := sym("glob!" + name)
+	if _, ok := x.sc.decls[n]; !ok {
+		x.sc.declConst(n, "Int")
+		x.regKey(keyAlloc, "Int")
+		x.sc.assert(and(app(">", n, "0"), app("<=", n, x.hget(Heap{base: "0", m: map[string]Term{}}, keyAlloc))))
+	}
+	return n
 }
 
 func (x *Enc) constVal(c *ssa.Const) Val {
@@ -642,6 +769,14 @@ func (fr *frame) encode(reach0 Term, h0 Heap) {
 				continue
 			}
 			h = fr.instr(b, in, reach, h)
+			if fr.narrow != "" {
+				// an inlined callee with cut loops: execution continues only on the paths that returned
+				rn := x.freshConst(fmt.Sprintf("R%d_cont", b.Index), "Bool")
+				x.sc.assert(eq(rn, and(reach, fr.narrow)))
+				reach = rn
+				fr.reach[b] = reach
+				fr.narrow = ""
+			}
 		}
 		fr.heapOut[b] = h
 		// back edges out of b: invariant obligations
